@@ -137,6 +137,7 @@ type c17Probe struct {
 	StateBad   bool
 	Scrape     map[string]map[string]float64
 	ScrapeErr  error
+	GatherErr  error // what a real (pedantic) registry makes of the same scrape, taken right after it
 	Panic      string
 	APICode    int
 	APIBody    []byte
@@ -313,6 +314,7 @@ func c17Prop(t *testing.T, k *verifkit.Kit) func(c c17Case) error {
 							}
 						}()
 						p.Scrape, p.ScrapeErr = vkScrape(w.mm)
+						_, p.GatherErr = reg.Gather()
 					}()
 					func() {
 						defer func() {
@@ -616,6 +618,12 @@ func c17Prop(t *testing.T, k *verifkit.Kit) func(c c17Case) error {
 					}
 				}
 				continue // reported as an error, no crash: fine
+			}
+			// the error alternative must be an error for whoever scrapes: what the collector returns and what a real
+			// registry reports for the same instant agree on failure (an error of a type the metrics library does not
+			// recognise is dropped there, and the scrape "succeeds" with the interface - and all after it - missing)
+			if !ambiguous && p.Panic == "" && (p.ScrapeErr != nil) != (p.GatherErr != nil) && !(p.GatherErr != nil && strings.Contains(p.GatherErr.Error(), "collected before")) {
+				return verifkit.Violf("C17/scrape-error-not-reported", "probe at %v: the collector returned %v, a real registry gathering at the same instant reported %v\n%s", p.At, p.ScrapeErr, p.GatherErr, text)
 			}
 			if ambiguous || !allReady {
 				continue // an error (not a crash) is the acceptable alternative before initialisation
